@@ -168,6 +168,8 @@ def _name(block, ev):
     btc = [max(x, 1e-7) for x in _bounds_t(sig2, math.sqrt(n * 1e-18))]
     btp = _bounds_t(sig2, math.sqrt(n * 1e-10))
     e = ev.get("e")
+    if e == "Diverge":
+        return "no-convergence", "NIPALS loop of %s did not converge within %s iterations (component %s)" % (ev.get("site"), ev.get("it"), ev.get("comp"))
     if e == "Abort":
         return ("no-convergence" if ev.get("why") == "iteration-budget" else "crash:%s" % ev.get("why")), "fit did not finish: %s" % ev
     if e == "Oracle":
@@ -230,8 +232,11 @@ def _validate(ctx, chunks, label, max_rounds):
 
 
 def _binding(ctx, chunks):
-    blocks = [b for b in tlc.split_blocks(chunks[0]) if any(e["e"] == "PcaRef" for e in b)][:15]
+    blocks = [b for ch in chunks[:3] for b in tlc.split_blocks(ch) if any(e["e"] == "PcaRef" for e in b)][:15]
     ev = [e for b in blocks for e in b]
+    if not any(e["e"] == "Truth" for e in ev) and ctx.violations:
+        ctx.note("binding self-test skipped: no completed model in the recording (violations reported above)")
+        return
 
     def corrupt(evs):
         for e in evs:
